@@ -429,7 +429,7 @@ fn model_of_state(st: &State<TagP>) -> Model {
 fn components(rep: &Reporter) {
     let mut rng = SplitMix64::new(rep.seed).fork(0xC0C4);
     let problem = TagP;
-    let n_random = rep.tier.pick(300, 5000);
+    let n_random = rep.tier.pick(300, 50_000);
     for case in 0..n_random {
         let height = rng.usize(5);
         let mut tagc = 0u32;
@@ -571,7 +571,7 @@ fn main() {
     rep.sample(json!({"history": format!("{:?}", [Op::Push(2), Op::Push(1), Op::Push(0), Op::Rotate(3), Op::TryPop, Op::Rotate(2)])}));
     rotation_laws(&rep);
     exhaustive(&rep, len, max_rot);
-    let (n_hist, hlen) = rep.tier.pick((400, 400), (6000, 2000));
+    let (n_hist, hlen) = rep.tier.pick((400, 400), (30_000, 2000));
     random_histories(&rep, n_hist, hlen);
     components(&rep);
     rep.exhaustive(true);
